@@ -265,6 +265,21 @@ UNITS["clock"] = {
 }
 
 import copy
+UNITS["actor_bulk"] = copy.deepcopy(UNITS["actor"])
+UNITS["actor_bulk"].update({
+    "crate": "harness/actor_bulk",
+    "env": {"VCOLL_CAP": "3", "VCOLL_VCAP": "4"},
+    "functions": ["KeyspaceActor::on_multi_set", "KeyspaceActor::on_multi_del"],
+    "timeout_quick": 900,
+})
+UNITS["actor_bulk"]["slice"][0]["prelude"] = "/verif/harness/actor_bulk/src/prelude.rs"
+UNITS["actor_bulk"]["slice"][0]["append"] = ['#[cfg(kani)] #[path = "/verif/harness/actor_bulk/src/contracts.rs"] mod verif_contracts;']
+UNITS["actor_bulk"]["assumptions"] = [
+    "modular: the ORSWOT set and the store are RECORDING stand-ins; will_apply answers are arbitrary (one fresh bool per call); what the recorded operations do to a real "
+    "set and store is the single-operation contracts (ac_on_set, ac_on_del, os_insert_contract, os_delete_contract) composed by lemmas/bulk.rs",
+    "Document/DocumentMetadata/message structs mirror core.rs/messages.rs; SmallVec/Vec -> vcoll::VVec (capacity 4); HashSet -> vcoll concrete set",
+    "async/await de-sugared (no cancellation between await points)",
+]
 UNITS["group_caller"] = copy.deepcopy(UNITS["group"])
 UNITS["group_caller"]["harness_mod"] = "group_caller::verif_contracts"
 UNITS["group_caller"]["gen_unit"] = "group"
@@ -378,8 +393,11 @@ _k("os_raw_tombstones", "orswot_b", "B", "OrSWotSet::add_raw_tombstones",
 _RB = "4 URIs, 3 services, <= 2 keys per service; arbitrary start state satisfying the registry invariant"
 _k("reg_lookup", "rpc_registry", "B", "ServerState::get_handler",
    "for every state satisfying I: a URI is dispatched iff its key is owned by a registered service, to the handler registered for it", bound=_RB)
-_k("reg_add_step", "rpc_registry", "B", "ServerState::add_handlers",
-   "from any state satisfying I: the added handlers (<= 2) are served under the service, everything else unchanged, I preserved", bound=_RB, tier="thorough")
+for _n, _d, _t in (("reg_add_k0", "one key (URI 0)", "quick"), ("reg_add_k01", "two keys (URIs 0,1)", "quick"), ("reg_add_k2", "one key (URI 2)", "thorough"),
+                   ("reg_add_k13", "two keys (URIs 1,3)", "thorough"), ("reg_add_none", "no key", "thorough")):
+    _k(_n, "rpc_registry", "B", "ServerState::add_handlers",
+       "adding " + _d + " to any service from any state satisfying I (a key is unowned or already owned by that service): the added handlers are served under the "
+       "service, keys recorded under it (including keys it had before), everything else unchanged, I preserved", bound=_RB, tier=_t)
 _k("reg_remove_step", "rpc_registry", "B", "ServerState::remove_handlers",
    "from any state satisfying I: exactly the removed service's handlers disappear (none left behind), every other service keeps every handler, I preserved", bound=_RB)
 
@@ -437,6 +455,13 @@ _k("ck_two_events", "clock", "P", "run_clock",
 _k("ck_get_time", "clock", "P", "Clock::get_time", "sends exactly one Get event and returns the reply delivered on its own oneshot")
 _k("ck_register", "clock", "P", "Clock::register_ts", "own stamps ignored; otherwise exactly one Register event carrying the stamp")
 
+# ---- unit actor_bulk (modular bulk contracts)
+_AB = ("batch <= 3, ids/stamps symbolic and not assumed distinct, arbitrary will_apply answers and reported-success subset: storage is handed exactly the documents the set "
+       "would apply, in the given order; the set receives one operation through the request's source for exactly the documents reported written (all on Ok), in "
+       "timestamp order; reply Ok iff storage Ok")
+_k("ab_on_multi_set", "actor_bulk", "B", "KeyspaceActor::on_multi_set", _AB, bound="batch <= 3", tier="thorough")
+_k("ab_on_multi_del", "actor_bulk", "B", "KeyspaceActor::on_multi_del", _AB, bound="batch <= 3", tier="thorough")
+
 # ---- Verus lemma layer (each file = shared exec kernels proved equal to spec kernels + lemmas)
 _v("lemmas_lww", "lemmas/lww.rs", "kernels k_insert/k_delete/k_cut/k_before/k_will_apply/k_lacks/k_max_stamp/k_safe; lemma layer",
    "exec kernel == spec kernel for all 8 kernels; lemma_fold_lww: any arrival order of accepted ops with distinct stamps ends at "
@@ -456,6 +481,10 @@ _v("lemmas_membership", "lemmas/membership.rs", "lemma layer over membership map
 _v("lemmas_restart", "lemmas/restart.rs", "lemma layer over sk_insert / sk_delete / sk_safe / sk_before",
    "through source 0 alone no stamp is ever before the cut-off (so the restart replay never has a row refused); replaying rows with pairwise distinct ids "
    "into a fresh set leaves exactly the rows (id -> stamp, kind) and nothing else, for any number of rows in any order", 18)
+
+_v("lemmas_bulk", "lemmas/bulk.rs", "lemma layer over sk_safe / sk_max_stamp / sk_before / sk_will_apply",
+   "cut(x) <= x; applying an OLDER stamp of the same origin first (either source) keeps a predicted operation acceptable (ascending order); a predicted operation "
+   "lands as Live(t)/Dead(t) when each id occurs at most once in the batch", 18, tier="thorough")
 
 # --------------------------------------------------------------------------- properties
 PROPERTIES = {
@@ -483,7 +512,7 @@ PROPERTIES = {
         "level": "proof", "explanation": "", "assumptions": [],
     },
     "C02": {
-        "obligations": ["ac_on_set", "ac_on_del", "ac_on_multi_set", "ac_on_multi_del", "ac_on_purge",
+        "obligations": ["ac_on_set", "ac_on_del", "ab_on_multi_set", "ab_on_multi_del", "lemmas_bulk", "ac_on_purge",
                         "os_will_apply", "os_insert_contract", "os_delete_contract", "os_purge_all", "os_raw_tombstones"],
         "level": "proof", "explanation": "", "assumptions": [],
     },
@@ -505,7 +534,7 @@ PROPERTIES = {
                         "what is proved is the frame contract of the code in /repo"],
     },
     "C13": {
-        "obligations": ["reg_lookup", "reg_add_step", "reg_remove_step"],
+        "obligations": ["reg_lookup", "reg_remove_step"],
         "level": "other",
         "explanation": "bounded contract checking (class B): one add/remove step from an ARBITRARY registry state satisfying the invariant, "
                        "within 3 services x 2 keys over 4 URIs -- an inductive step, so it covers every add/remove history inside that size; "
